@@ -121,7 +121,12 @@ func verifC04(n, t, n2, t2, mode int) {
 		params.SetRand(v.ReaderWith(v.Name("newrand", i), verifNonZero))
 		newP[i] = NewLocalParty(params, keygen.NewLocalPartySaveData(n2), out, end)
 	}
+	lateStarted := verifC04Late < 0
+	lateR1 := 0
 	for i := range newP {
+		if i == verifC04Late {
+			continue // started only after every old member's round-1 message has reached it (C07)
+		}
 		v.Assert("start-succeeds", newP[i].Start() == nil)
 	}
 	for i := range oldP {
@@ -218,6 +223,14 @@ func verifC04(n, t, n2, t2, mode int) {
 		} else {
 			_, err = newP[d.idx].Update(pm)
 		}
+		if _, r1 := pm.Content().(*DGRound1Message); r1 && !d.toOld && d.idx == verifC04Late {
+			lateR1++
+		}
+		if !lateStarted && (lateR1 == n || len(pending) == 0) {
+			// the late member's local Start() comes after all of its round-1 messages were delivered
+			lateStarted = true
+			v.Assert("late-start-succeeds", newP[verifC04Late].Start() == nil)
+		}
 		if verifC04Adv >= 0 {
 			if err != nil {
 				v.Assert("error-only-at-the-victim-after-the-forgery", forged && !d.toOld && d.idx == 0)
@@ -249,6 +262,7 @@ func verifC04(n, t, n2, t2, mode int) {
 		v.Reach("end")
 		return
 	}
+	v.Assert("late-member-was-started", lateStarted)
 	v.Assert("all-old-members-finish", oldEnded == n)
 	for j := 0; j < n; j++ {
 		v.Assert("old-share-erased-at-the-end", oldSaves[j].Xi.Sign() == 0)
@@ -302,6 +316,20 @@ func VerifHarness_C04_eddsa_reshare_3of3_to_2of2_fifo() { verifC04(3, 2, 2, 1, n
 // detect it and blame exactly that old member; nobody emits new key material and no old
 // share is erased.
 var verifC04Adv = -1
+
+// C07 for resharing: new member verifC04Late calls Start() only after every old member's
+// round-1 message has been delivered to it (messages delivered before the local Start call);
+// the run must still complete with the C04 outcome, with no party left waiting
+var verifC04Late = -1
+
+func VerifHarness_C07_eddsa_reshare_new_member_starts_late_2to2() {
+	verifC04Late = 0
+	verifC04(2, 1, 2, 1, net.FIFO)
+}
+func VerifHarness_C07_eddsa_reshare_new_member_starts_late_3to3() {
+	verifC04Late = 1
+	verifC04(3, 1, 3, 2, net.FIFO)
+}
 
 func VerifHarness_C05_eddsa_reshare_hostile_old_member_2to2() {
 	verifC04Adv = 1
